@@ -15,3 +15,4 @@ open SSVerif.Api
 #print axioms C08_batch_no_reset
 #print axioms C08_instances_disjoint
 #print axioms C08_topn_rescan_independent
+#print axioms C08_creation_order_irrelevant
